@@ -134,6 +134,28 @@ pub struct Params {
     pub phi: f64,
 }
 
+/// opt=<steps>:<seed>[:<kt_start>[:<chain>]] - optimise a CLONE of the state with the crate's own optimiser
+/// (as the command line does for every replica), `chain` stages in a row, and hand back the result
+fn optimised<S: State + serde::de::DeserializeOwned>(st: S, spec: &Spec) -> S {
+    let o = match spec.kv.get("opt") {
+        Some(o) => o.clone(),
+        None => return st,
+    };
+    let v: Vec<f64> = o.split(':').map(parse_f).collect();
+    let steps = v[0] as u64;
+    let seed = v.get(1).cloned().unwrap_or(0.) as u64;
+    let kt = v.get(2).cloned().unwrap_or(0.1);
+    let chain = v.get(3).cloned().unwrap_or(1.) as u64;
+    let mut cur = st;
+    for stage in 0..chain.max(1) {
+        let mut b = packing::BuildOptimiser::default();
+        b.steps(steps).inner_steps((steps / 4).max(1)).kt_start(kt).kt_ratio(Some(0.5)).max_step_size(0.2).seed(seed + stage);
+        let out = b.build().optimise_state(cur.clone());
+        cur = serde_json::from_value(serde_json::to_value(&out).unwrap()).expect("optimised state from JSON");
+    }
+    cur
+}
+
 fn inject<S: serde::Serialize + serde::de::DeserializeOwned>(st: &S, p: &Option<Params>) -> S {
     let mut v = serde_json::to_value(st).unwrap();
     if let Some(p) = p {
@@ -161,22 +183,22 @@ pub fn build(spec: &Spec) -> St {
     match (parts[0], lj) {
         ("polygon", false) => {
             let sh = LineShape::polygon(parts[1].parse().unwrap()).expect("polygon");
-            St::Poly(inject(&PackedState::from_group(sh, &g).unwrap(), &p))
+            St::Poly(optimised(inject(&PackedState::from_group(sh, &g).unwrap(), &p), spec))
         }
         ("radial", false) => {
             let r: Vec<f64> = parts[1..].iter().map(|s| parse_f(s)).collect();
             let sh = LineShape::from_radial("Radial", r).expect("radial");
-            St::Poly(inject(&PackedState::from_group(sh, &g).unwrap(), &p))
+            St::Poly(optimised(inject(&PackedState::from_group(sh, &g).unwrap(), &p), spec))
         }
-        ("circle", false) => St::Mol(inject(&PackedState::from_group(MolecularShape2::circle(), &g).unwrap(), &p)),
+        ("circle", false) => St::Mol(optimised(inject(&PackedState::from_group(MolecularShape2::circle(), &g).unwrap(), &p), spec)),
         ("trimer", false) => {
             let sh = MolecularShape2::from_trimer(parse_f(parts[1]), parse_f(parts[2]), parse_f(parts[3]));
-            St::Mol(inject(&PackedState::from_group(sh, &g).unwrap(), &p))
+            St::Mol(optimised(inject(&PackedState::from_group(sh, &g).unwrap(), &p), spec))
         }
-        ("circle", true) => St::Lj(inject(&PotentialState::from_group(LJShape2::circle(), &g).unwrap(), &p)),
+        ("circle", true) => St::Lj(optimised(inject(&PotentialState::from_group(LJShape2::circle(), &g).unwrap(), &p), spec)),
         ("trimer", true) => {
             let sh = LJShape2::from_trimer(parse_f(parts[1]), parse_f(parts[2]), parse_f(parts[3]));
-            St::Lj(inject(&PotentialState::from_group(sh, &g).unwrap(), &p))
+            St::Lj(optimised(inject(&PotentialState::from_group(sh, &g).unwrap(), &p), spec))
         }
         _ => panic!("unsupported shape/kind {}", spec.text),
     }
@@ -373,6 +395,21 @@ pub fn run_state_case(spec: &Spec, out: &mut dyn Write) -> GeomOut {
         })
         .collect();
     let (a, b, angle, area) = st.cell();
+    // C04/C08/C10: the written structure keeps the crystal family of its group, and with it the right angle
+    {
+        let fam = js["cell"]["family"].as_str().unwrap_or("?").to_string();
+        let want = if group == "p1" || group == "p2" { "Monoclinic" } else { "Orthorhombic" };
+        if fam != want {
+            add(&mut f, "C04,C08,C10", format!("the cell of a {} structure has crystal family {}, the group's family is {}", group, fam, want));
+        }
+        if want == "Orthorhombic" && spec.kv.contains_key("opt") && angle != std::f64::consts::FRAC_PI_2 {
+            add(&mut f, "C04,C08", format!("optimisation changed the cell angle of the rectangular group {} to {:?}", group, angle));
+        }
+        let wname = js["wallpaper"]["name"].as_str().unwrap_or("?");
+        if wname != group {
+            add(&mut f, "C10", format!("a structure built for {} is labelled {}", group, wname));
+        }
+    }
     let len = js["cell"]["length"].as_f64().unwrap();
     let ratio = js["cell"]["ratio"].as_f64().unwrap();
     let (cs, sn) = (angle.cos(), angle.sin());
